@@ -1,5 +1,11 @@
+(* Extraction of the C01 pipeline: the fact-level run (check_run) and the composition with the threshold
+   model (Check/Compose.v: check_command derives every per-file fact from the configuration, the CLI
+   overrides and the match vectors). ExtrOcamlBasic only. *)
 From Coq Require Import NArith List.
-From SG Require Import Check.Results Check.BMap Check.ExitCode Check.Ratchet Check.Baseline Check.Pipeline.
+From SG Require Import Check.Results Check.BMap Check.ExitCode Check.Ratchet Check.Baseline Check.Pipeline Check.Compose.
+From SG Require Threshold.Model.
 Require Extraction. Require Import ExtrOcamlBasic.
 Extraction Language OCaml.
-Extraction "../ocaml/gen/pipeline_ex.ml" check_run mkFact mkFlags mkResult in_scope spec_status.
+Extraction "../ocaml/gen/pipeline_ex.ml" check_run mkFact mkFlags mkResult in_scope spec_status
+  check_command config_rejected fact_of mkIn
+  Threshold.Model.check_checker Threshold.Model.mk_config Threshold.Model.mk_rule Threshold.Model.mk_cli Threshold.Model.mk_stats.
